@@ -222,12 +222,18 @@ def r1(ctx, fs):
                     seen_cells.add(cell)
                     ctx.instance(rid, [f.id, 'arity0'], {'cell': _cell_name(theory, fname, 0, None), 'result': show(t)})
                     # K rel 0 ? TRUE : FALSE
-                    ok = isinstance(t, tuple) and t[0] == '?:' and t[2] == 'smt::TRUE_lit' and t[3] == 'smt::FALSE_lit'
-                    if ok:
-                        c = t[1]
-                        K, Z = ('.', 'expr', 'known_term'), 'smt::rational::ZERO'
-                        want = {'<': ('<', K, Z), '<=': ('<=', K, Z), '>=': ('<=', Z, K), '>': ('<', Z, K), '==': ('==',) + tuple(sorted((K, Z), key=repr))}[rel]
-                        ok = (c == want)
+                    K, Z = ('.', 'expr', 'known_term'), 'smt::rational::ZERO'
+                    want = {'<': ('<', K, Z), '<=': ('<=', K, Z), '>=': ('<=', Z, K), '>': ('<', Z, K), '==': ('==',) + tuple(sorted((K, Z), key=repr))}[rel]
+                    # the complement of each test, for layouts that branch on the opposite comparison
+                    comp = {'<': ('<=', Z, K), '<=': ('<', Z, K), '>=': ('<', K, Z), '>': ('<=', K, Z), '==': ('!=',) + tuple(sorted((K, Z), key=repr))}[rel]
+                    ok = isinstance(t, tuple) and t[0] == '?:' and t[2] == 'smt::TRUE_lit' and t[3] == 'smt::FALSE_lit' and t[1] == want
+                    if not ok and t in ('smt::TRUE_lit', 'smt::FALSE_lit'):
+                        # `return c ? TRUE : FALSE` arrives as two paths with the atomic decision on c (any if / ternary layout)
+                        last = [(cn(n2), pol) for kind, n2, pol in p.conds if kind == 'if']
+                        if last:
+                            c, pol = last[-1]
+                            holds = pol if c == want else ((not pol) if c == comp else None)
+                            ok = holds is not None and (t == 'smt::TRUE_lit') == holds
                     if not ok:
                         ctx.finding(rid, f.id, 'arity0', '%s: constant case does not fold to (known_term %s 0 ? TRUE : FALSE)' % (f.id, rel), node=ret,
                                     expect='expr.known_term %s rational::ZERO ? TRUE_lit : FALSE_lit' % rel)
